@@ -34,6 +34,7 @@ def shards(tier, seed):
     ret = [{'name': 'exh-n1n2'}, {'name': 'convert'}, {'name': 'random'}]
     if tier == 'thorough':
         ret += [{'name': f'exh-n3-{i}', 'part': i, 'nparts': 12} for i in range(12)]
+        ret += [{'name': 'repo-tests'}]
     return ret
 
 
@@ -428,6 +429,9 @@ def run(ctx, shard):
                     f1 = P.pauli_index_to_F2(int(e), n, with_sign=True)
                     e1 = P.pauli_F2_to_index(f1, with_sign=True)
                     ctx.check(int(e1) == e, 'roundtrip/index-F2-index', 'edge python-int index->F2->index not identity', {'n': n, 'e': e})
+    elif name == 'repo-tests':
+        from vmon.repotests import run_repo_tests
+        run_repo_tests(ctx, ['test_gate.py', 'tests_sim/test_sim_clifford.py'])
     elif name == 'random':
         ctx.workload('random')
         N = 400 if ctx.tier == 'quick' else 4000
